@@ -588,3 +588,107 @@ Proof.
   destruct (become_follower_pres rw _ _ _ _ Hbf H) as [H1 L1].
   apply (step_body_nops rw); [exact H1|rewrite L1; exact W].
 Qed.
+#[export] Hint Extern 1 (nops (step _ _)) => let rw := the_rw in eapply (step_nops rw) : nops.
+
+Lemma msg_wf2_local li m :
+  elect_type (m_type m) = false -> m_type m <> MsgPropose -> m_type m <> MsgAppend ->
+  m_type m <> MsgSnapshot -> msg_wf2 li m.
+Proof. intros A B C0 D. split; [apply msg_wf_plain; assumption|]. intros E. contradiction. Qed.
+
+Lemma msg_wf2_hup li m : m_type m = MsgHup -> li + 1 < u64_max -> msg_wf2 li m.
+Proof.
+  intros E Hr. split; [|intros X; rewrite E in X; discriminate].
+  unfold msg_wf. rewrite E.
+  split; [intros _; exact Hr|split; [intros X; discriminate X|split; intros X; discriminate X]].
+Qed.
+
+Lemma tick_election_nops rw r : LI rw r -> room 1 r -> nops (tick_election r).
+Proof.
+  intros H Hr. unfold tick_election. unfold LI in H. cbv zeta.
+  match goal with |- nops (if ?c then _ else _) => destruct c end; [exact I|].
+  apply nops_bind; [|intros; exact I].
+  apply (step_nops rw); [solve_li|]. apply msg_wf2_hup; [reflexivity|exact Hr].
+Qed.
+
+Lemma tick_heartbeat_nops rw r : LI rw r -> nops (tick_heartbeat r).
+Proof.
+  intros H. unfold tick_heartbeat. unfold LI in H. cbv zeta.
+  apply nops_bind.
+  { match goal with |- nops (if ?c then _ else _) => destruct c end; [|exact I].
+    apply nops_bind; [|intros [r1 hr] _; exact I].
+    match goal with |- nops (if ?c then _ else _) => destruct c end; [|exact I].
+    apply nops_bind; [|intros; exact I].
+    apply (step_nops rw); [solve_li|]. apply msg_wf2_local; cbn; try reflexivity; discriminate. }
+  intros [r1 hr] E. cbv beta iota.
+  assert (Q : LI rw r1).
+  { match type of E with (if ?c then _ else _) = _ => destruct c end; [|injection E as <- _; solve_li].
+    inv_bind E. destruct x as [r0 h0].
+    assert (Q0 : LI rw r0).
+    { match type of Hx with (if ?c then _ else _) = _ => destruct c end;
+        [|injection Hx as <- _; solve_li].
+      inv_bind Hx. injection Hx as <- _. destruct x as [r2 c2]. cbn [fst].
+      eapply (step_pres rw); [exact Hx0| |solve_li].
+      apply msg_wf_plain; cbn; try reflexivity; discriminate. }
+    injection E as <- _. unfold LI in *.
+    match goal with |- RepInv _ (r_log (if ?c then _ else _)) => destruct c end; exact Q0. }
+  unfold LI in Q.
+  destruct (negb (is_leader r1)); [exact I|].
+  match goal with |- nops (if ?c then _ else _) => destruct c end; [|exact I].
+  apply nops_bind; [|intros; exact I].
+  apply (step_nops rw); [solve_li|]. apply msg_wf2_local; cbn; try reflexivity; discriminate.
+Qed.
+
+Theorem tick_nops rw r : LI rw r -> room 1 r -> nops (tick r).
+Proof.
+  intros H Hr. unfold tick. destruct (r_state r);
+    first [apply (tick_election_nops rw); assumption|apply (tick_heartbeat_nops rw); assumption].
+Qed.
+
+Theorem on_persist_entries_nops rw r i t : LI rw r -> nops (on_persist_entries r i t).
+Proof. intros H. unfold on_persist_entries. unfold LI in H. snops. Qed.
+
+Theorem on_persist_snap_nops rw r i : LI rw r -> nops (on_persist_snap r i).
+Proof. intros H. unfold on_persist_snap. snops. Qed.
+
+Theorem commit_apply_nops rw r app : LI rw r -> room 1 r -> nops (commit_apply r app).
+Proof.
+  intros H Hr. unfold commit_apply, commit_apply_internal. cbn [negb]. unfold LI in H. cbv zeta.
+  apply nops_bind; [snops|]. intros l' E.
+  destruct (applied_to_pres rw _ _ _ E H) as (Q & Es & Eu & _).
+  assert (Hr' : room 1 (r <| r_log := l' |>)).
+  { unfold room in *. cbn. unfold last_index in *. rewrite Es, Eu. exact Hr. }
+  snops.
+Qed.
+
+Theorem raft_apply_conf_change_nops rw r cc : LI rw r -> nops (raft_apply_conf_change r cc).
+Proof.
+  intros H. unfold raft_apply_conf_change. cbv zeta.
+  match goal with |- nops (match ?x with _ => _ end) => destruct x as [[c' chs]|e] end; [|exact I].
+  apply nops_bind; [|intros; exact I]. apply (post_conf_change_nops rw). unfold LI in *. cbn. exact H.
+Qed.
+
+Theorem load_state_nops r hs : nops (load_state r hs).
+Proof. unfold load_state. destruct (_ || _); [apply notin_b; vm_compute; reflexivity|exact I]. Qed.
+
+Theorem request_snapshot_nops rw r : LI rw r -> nops (request_snapshot r).
+Proof.
+  intros H. unfold request_snapshot. unfold LI in H.
+  destruct (is_leader r); [exact I|]. destruct (_ =? _); [exact I|].
+  match goal with |- nops (if ?c then _ else _) => destruct c end; [exact I|].
+  destruct (negb _); [exact I|]. cbv zeta.
+  destruct (term_at_last_ok rw _ H) as [t ->]. cbn [bind]. snops.
+Qed.
+
+Theorem ping_nops rw r : LI rw r -> nops (ping r).
+Proof. intros H. unfold ping. unfold LI in H. snops. Qed.
+
+Theorem adjust_max_inflight_msgs_nops r t c : nops (adjust_max_inflight_msgs r t c).
+Proof.
+  eapply nops_only; [intros s; apply adjust_max_inflight_msgs_sites_ok|vm_compute; reflexivity].
+Qed.
+
+Theorem enable_group_commit_nops rw r e : LI rw r -> nops (enable_group_commit r e).
+Proof. intros H. unfold enable_group_commit. unfold LI in H. snops. Qed.
+
+Theorem assign_commit_groups_nops rw r ids : LI rw r -> nops (assign_commit_groups r ids).
+Proof. intros H. unfold assign_commit_groups. unfold LI in H. snops. Qed.
